@@ -111,6 +111,34 @@ fn materialise(view: &str, data: &Path, payloads: &[Payload]) -> bool {
     true
 }
 
+/// run the real `persist_snapshot` with the directory captured (copied) at every `snap.*` point;
+/// returns the states in order, the first one being "before"
+fn persist_captured(data: &Path, bytes: &[u8], out: &Path) -> Option<Vec<(String, PathBuf)>> {
+    let events: Arc<Mutex<Vec<(String, PathBuf)>>> = Arc::new(Mutex::new(vec![]));
+    let before = out.join("s0");
+    copy_dir(&data.join("snapshots"), &before.join("snapshots"));
+    events.lock().unwrap().push(("before".to_string(), before));
+    {
+        let ev = Arc::clone(&events);
+        let snapdir = data.join("snapshots");
+        let out2 = out.to_path_buf();
+        samyama::verif_hook::install(Arc::new(move |name: &'static str| {
+            if !name.starts_with("snap.") {
+                return;
+            }
+            let mut g = ev.lock().unwrap();
+            let d = out2.join(format!("s{}", g.len()));
+            copy_dir(&snapdir, &d.join("snapshots"));
+            g.push((name.to_string(), d));
+        }));
+    }
+    let res = persist_snapshot(&data.to_string_lossy(), bytes);
+    samyama::verif_hook::clear();
+    res.ok()?;
+    let v = events.lock().unwrap().clone();
+    Some(v)
+}
+
 fn hist_txt(n: usize) -> String {
     if n == 0 {
         "-".into()
@@ -232,6 +260,7 @@ fn main() {
     }
 
     let events: Arc<Mutex<Vec<(String, PathBuf)>>> = Arc::new(Mutex::new(vec![]));
+    let mut chain_rng = Rng::new(args.seed ^ 0x5eed_c14);
     let mut case_no = 0usize;
     let mut first_break: Option<(String, String)> = None;
     let mut handler_checked = false;
@@ -463,6 +492,82 @@ fn main() {
         }
         if rep.samples.len() < 3 {
             rep.sample(json!({"history": hist_text, "points": real_points, "clean_restart": restored}));
+        }
+        // (e) crash, restart, import again, crash again: the second persist starts from a directory a
+        //     crash left behind (left-over tmp file, new final file under the old marker, …)
+        if n >= 2 {
+            let cdata = base.join("chain-data");
+            std::fs::create_dir_all(&cdata).unwrap();
+            for p in &payloads[..n - 2] {
+                persist_snapshot(&cdata.to_string_lossy(), &p.bytes).expect("persist");
+            }
+            if let Some(s1) = persist_captured(&cdata, &payloads[n - 2].bytes, &base.join("chain-1")) {
+                let picks: Vec<usize> = if args.thorough() {
+                    (0..s1.len()).collect()
+                } else {
+                    let mut v = vec![];
+                    for _ in 0..3 {
+                        let i = chain_rng.usize(s1.len());
+                        if !v.contains(&i) {
+                            v.push(i);
+                        }
+                    }
+                    v
+                };
+                for i1 in picks {
+                    let (name1, d1) = &s1[i1];
+                    let k1 = if i1 == 0 { Some(0) } else { model_points.iter().position(|p| p == name1).map(|i| i + 1) };
+                    let cd = base.join(format!("chain-2-{}", i1));
+                    copy_dir(&d1.join("snapshots"), &cd.join("snapshots"));
+                    let (baseline, _) = restart(&cd, &payloads);
+                    if drv.ask(&format!("spec {} {} {}", hist_txt(n - 2), n - 1, baseline)) != "ok" {
+                        rep.spec_violation(
+                            &known,
+                            "chain:baseline",
+                            &format!("a crash at {} during import {} restores `{}`", name1, n - 1, baseline),
+                            &format!("{}\ncrash at {} during import {}: restart restores {}", hist_text, name1, n - 1, baseline),
+                        );
+                        continue;
+                    }
+                    let Some(s2) = persist_captured(&cd, &payloads[n - 1].bytes, &base.join(format!("chain-3-{}", i1))) else { continue };
+                    for (i2, (name2, d2)) in s2.iter().enumerate() {
+                        let k2 = if i2 == 0 { Some(0) } else { model_points.iter().position(|p| p == name2).map(|i| i + 1) };
+                        let view = dir_view(&d2.join("snapshots"), &payloads);
+                        let (restored, _) = restart(d2, &payloads);
+                        let inside = i1 > 0 && i1 + 1 < s1.len() && i2 > 0 && i2 + 1 < s2.len();
+                        rep.case(&format!("{} chain {}@{} {}@{}", hist_text, n - 1, name1, n, name2), inside);
+                        rep.count("chain:crash-restart-persist-crash");
+                        let body = format!(
+                            "{}\nimport {} crashed at {}; restart restores {}; import {} crashed at {}\ndirectory {}\nrestored {}",
+                            hist_text, n - 1, name1, baseline, n, name2, view, restored
+                        );
+                        if restored != baseline && restored != format!("ok:{}", n) {
+                            let sig = if restored == "corrupt" { "chain:partial-or-corrupt-restored" } else { "chain:neither-baseline-nor-new" };
+                            rep.count(&format!("spec_violation:{}", sig));
+                            rep.spec_violation(
+                                &known,
+                                sig,
+                                &format!("after a crash at {} and a restart (restoring {}), a crash at {} of the next import restores `{}`", name1, baseline, name2, restored),
+                                &body,
+                            );
+                            continue;
+                        }
+                        if let (Some(k1), Some(k2)) = (k1, k2) {
+                            let m = drv.ask(&format!("chain 0 {} {} {} {} {}", hist_txt(n - 2), n - 1, k1, n, k2));
+                            let f: Vec<&str> = m.split(' ').collect();
+                            if f.len() == 3 && (f[1] != view || f[2] != restored) {
+                                rep.count("model_mismatch:chain");
+                                if first_break.is_none() {
+                                    first_break = Some((
+                                        "SgModel.SnapFS.step from a crashed directory = persist_snapshot from a crashed directory".into(),
+                                        format!("{}\nmodel {}", body, m),
+                                    ));
+                                }
+                            }
+                        }
+                    }
+                }
+            }
         }
         let _ = std::fs::remove_dir_all(&base);
     }
